@@ -368,7 +368,12 @@ def Mon.checkSnap (m : Mon) (ws : List String) : Option String :=
           match acc with
           | some e => some e
           | none =>
-            if m.failed.contains id then none else
+            if m.failed.contains id then
+              -- a failed lane has no links: if its reporter still answers, it must say so
+              match (fieldOf ws s!"l{id}").bind parseCounters with
+              | some c => if c.links ≠ 0 then some "lane-link-count-wrong" else none
+              | none => none
+            else
             match (fieldOf ws s!"l{id}").bind parseCounters with
             | none => some "lane-snapshot-missing"
             | some c =>
